@@ -330,6 +330,70 @@ ImplSemiValidate(b, m, junk) ==
 \* every well-formed move value (any colour, any man), indexed by source square and man - evaluated once
 
 (***************************************************************************)
+(* Board validation as the code does it (TryFrom<RawBoard> for Board):     *)
+(* first the e.p. rank test and the two normalisations on the RAW record,  *)
+(* then the occupancy sets, then the tests in code order - the FIRST one   *)
+(* that fires is the reported reason.  Result: [ok |-> TRUE, b |-> board]  *)
+(* or [ok |-> FALSE, err |-> <<name, argument>>].                          *)
+(***************************************************************************)
+ImplTryFrom(raw) ==
+  LET s == raw.side  c == raw.cells
+      epBad == raw.ep # -1 /\ RankOf(raw.ep) # EpSrcRank(s)
+      \* (only evaluated when the rank is right: then the square in front exists)
+      epKeep == raw.ep # -1 /\ ~epBad /\ c[raw.ep] = MkCell(Other(s), P) /\ c[raw.ep + 8 * Fwd(s)] = 0
+      keep == {cs \in RightsSet(raw.castling) :
+                  c[KingHome(cs[1])] = MkCell(cs[1], K) /\ c[RookHome(cs[1], cs[2])] = MkCell(cs[1], R)}
+      r2 == [raw EXCEPT !.ep = IF epKeep THEN raw.ep ELSE -1, !.castling = RightsOfSet(keep)]
+      b == Scratch(r2)
+      wk == b.pieces[MkCell(White, K)]  bk == b.pieces[MkCell(Black, K)]
+      badPawns == (b.pieces[MkCell(White, P)] \cup b.pieces[MkCell(Black, P)]) \cap {q \in Sq : RankOf(q) \in {0, 7}}
+      E(name, arg) == [ok |-> FALSE, err |-> <<name, arg>>]
+  IN IF epBad THEN E("InvalidEnpassant", raw.ep)
+     ELSE IF Cardinality(b.white) > 16 THEN E("TooManyPieces", White)
+     ELSE IF Cardinality(b.black) > 16 THEN E("TooManyPieces", Black)
+     ELSE IF wk = {} THEN E("NoKing", White)
+     ELSE IF bk = {} THEN E("NoKing", Black)
+     ELSE IF Cardinality(wk) > 1 THEN E("TooManyKings", White)
+     ELSE IF Cardinality(bk) > 1 THEN E("TooManyKings", Black)
+     ELSE IF badPawns # {} THEN E("InvalidPawn", SetMin(badPawns))         \* the iterator yields the lowest index first
+     ELSE IF ImplIsAttacked(b, KingPos(b, Other(s)), s) THEN E("OpponentKingAttacked", 0)
+     ELSE [ok |-> TRUE, b |-> b]
+
+\* C11 at the design level: accept exactly the valid boards, report a reason that holds, normalise as Rules says,
+\* and hand out a board whose derived state is consistent; validating the result again changes nothing
+Obl_TryFrom(raw) ==
+  LET r == ImplTryFrom(raw)  S == Conditions(raw) IN
+  /\ r.ok <=> (S = {})
+  /\ ~r.ok => r.err \in S
+  /\ r.ok => /\ r.b.r = Normalise(raw) /\ Consistent(r.b) /\ IsValid(r.b.r)
+             /\ ImplTryFrom(r.b.r) = r
+
+(***************************************************************************)
+(* Outcome of a position as the code calculates it (Board::calc_outcome,   *)
+(* calc_draw_simple, is_insufficient_material with its light/dark cutoff). *)
+(***************************************************************************)
+ImplInsufficient(b) ==
+  LET x == Xor(b.all, b.pieces[MkCell(White, K)] \cup b.pieces[MkCell(Black, K)])
+      knights == b.pieces[MkCell(White, N)] \cup b.pieces[MkCell(Black, N)]
+      bishops == b.pieces[MkCell(White, B)] \cup b.pieces[MkCell(Black, B)]
+  IN IF (\E q \in x : SqColor(q) = 0) /\ (\E q \in x : SqColor(q) = 1) THEN FALSE     \* LIGHT_SQUARES / DARK_SQUARES
+     ELSE IF x = {} THEN TRUE
+     ELSE IF x = knights /\ Cardinality(knights) = 1 THEN TRUE
+     ELSE x = bishops
+ImplDrawSimple(b) ==
+  IF ImplInsufficient(b) THEN "insufficient"
+  ELSE IF b.r.hm >= 150 THEN "moves75" ELSE IF b.r.hm >= 100 THEN "moves50" ELSE "none"
+ImplCalcOutcome(b, EpFix) ==
+  IF ~ImplHasLegalMoves(b, EpFix)
+  THEN (IF ImplIsCheck(b) THEN <<"win", Other(b.r.side), "checkmate">> ELSE <<"draw", "stalemate">>)
+  ELSE LET d == ImplDrawSimple(b) IN IF d = "none" THEN <<"none">> ELSE <<"draw", d>>
+\* C07 at the design level
+Obl_Outcome(b, EpFix) ==
+  /\ ImplCalcOutcome(b, EpFix) \in OutcomeAllowed(b.r, 1)
+  /\ ImplDrawSimple(b) \in DrawSimpleAllowed(b.r)
+  /\ ImplInsufficient(b) = Insufficient(b.r.cells)
+
+(***************************************************************************)
 (* The refinement obligations between the two layers (checked by TLC on    *)
 (* bounded models, see MC_Impl.tla).                                       *)
 (***************************************************************************)
